@@ -128,6 +128,8 @@ func CheckC10(e *Env) int {
 	// which package declares a set must not matter even when two packages share their package
 	// clause and the names of their members
 	progs = append(progs, twinPackagesFamily()...)
+	// adapters between types that differ only in the order of their parts: accepted
+	progs = append(progs, permutedSignatureFamily()...)
 	results := RunPool(e, progs, PoolOpts{Execute: true, Name: "c10"})
 	byKey := map[key]*ProgResult{}
 	for _, pr := range results {
